@@ -308,8 +308,10 @@ class Gen:
             return ["neg", self.e_int(scope, d - 1)]
         if c < 0.88:
             return ["cast", self.e_int(scope, d - 1), r.choice(["Integer", "BigInteger", "Numeric"])]
-        if c < 0.92:
-            return ["bind", self.fresh("bp"), "int", {}]
+        if c < 0.90:
+            return ["bind", self.fresh("bp"), "int", {"callable": True} if r.random() < 0.3 else {}]
+        if c < 0.93:
+            return ["abind", "int", {"callable": True} if r.random() < 0.5 else {}]
         if c < 0.96 and cols:
             return ["type_coerce", r.choice(cols), "Integer"]
         return ["scalar", self.simple_scalar(scope)]
@@ -329,8 +331,10 @@ class Gen:
             if f == "coalesce":
                 return ["func", "coalesce", [self.e_str(scope, d - 1), ["lit", "str"]]]
             return ["func", f, [self.e_str(scope, d - 1)]]
-        if c < 0.9:
+        if c < 0.88:
             return ["cast", self.e_int(scope, d - 1), r.choice(["String", "Text"])]
+        if c < 0.93:
+            return ["abind", "str", {"callable": True} if r.random() < 0.5 else {}]
         return ["case", [[self.e_bool(scope, d - 1), self.e_str(scope, d - 1)]], ["lit", "str"]]
 
     def e_bool(self, scope, d):
@@ -480,6 +484,18 @@ class Gen:
                     exported["id"] = "int"
         spec["cols"] = cols
         where = [self.e_bool(scope, d) for _ in range(r.choice([0, 1, 1, 2]))]
+        if r.random() < 0.3:
+            # explicit bind parameter in value or callable form (anonymous or named)
+            ic = self.cols_of(scope, "int")
+            if ic:
+                fl = {"callable": True} if r.random() < 0.5 else {}
+                b = ["abind", "int", fl] if r.random() < 0.6 else ["bind", self.fresh("bp"), "int", fl]
+                where.append(["bin", r.choice(CMP), r.choice(ic), b])
+        if orm and froms[0][0] == "ent" and r.random() < 0.2:
+            rels = [j for j in JOINS if j[0] == base and j[4] in ("a", "b")]  # many-to-one: rel == instance
+            if rels:
+                j = r.choice(rels)
+                where.append(["rel_eq", base, j[4], ENTITY_OF[j[1]]])
         spec["where"] = where
         is_entity = cols and cols[0][0] == "ent"
         if not is_entity and not want_names and r.random() < 0.18:
@@ -723,9 +739,31 @@ class Builder:
             kw = {}
             if flags.get("literal_execute"):
                 kw["literal_execute"] = True
+            if flags.get("callable"):
+                # value supplied by a callable evaluated at execution time (the form the ORM lazy loader uses)
+                return sa.bindparam(name, callable_=(lambda v=v: v), type_=self.tag_type(kind), **kw)
             if flags.get("notype"):
                 return sa.bindparam(name, v, **kw)
             return sa.bindparam(name, v, type_=self.tag_type(kind), **kw)
+        if h == "abind":
+            # anonymous (unique) bind parameter, value form or callable form: both forms of one statement
+            # shape share a cache key
+            _, kind, flags = node
+            v = self.lit(kind)
+            if flags.get("callable"):
+                return sa.bindparam(None, callable_=(lambda v=v: v), type_=self.tag_type(kind))
+            return sa.bindparam(None, v, type_=self.tag_type(kind))
+        if h == "rel_eq":
+            # relationship == instance: the ORM renders bind parameters whose callables read the instance
+            _, fk, rel, target = node
+            ent = scope[fk]
+            try:
+                attr = getattr(ent, rel)
+            except AttributeError:
+                raise Inapplicable(f"no relationship {fk}.{rel}")
+            obj = self.env.entities[target]()
+            obj.id = self.lit("posint")
+            return attr == obj
         if h == "bin":
             _, op, l, r = node
             if op in ("and", "or"):
@@ -1224,6 +1262,15 @@ def _node_mutations(node, rng, frommap=None, top=True):
             fl2["notype"] = not fl2.get("notype")
             out.append(("bindtype", ["bind", node[1], node[2], fl2]))
             out.append(("bindname", ["bind", node[1] + "q", node[2], node[3]]))
+            fl3 = dict(node[3])
+            fl3["callable"] = not fl3.get("callable")
+            fl3.pop("notype", None)
+            out.append(("bindcallable", ["bind", node[1], node[2], fl3]))
+        elif h == "abind":
+            fl = dict(node[2])
+            fl["callable"] = not fl.get("callable")
+            out.append(("bindcallable", ["abind", node[1], fl]))
+            out.append(("littype", ["abind", {"int": "float", "str": "like", "float": "int"}.get(node[1], "int"), node[2]]))
         elif h == "not":
             out.append(("unwrap_not", node[1]))
         elif h == "neg":
@@ -1406,7 +1453,7 @@ def _node_mutations(node, rng, frommap=None, top=True):
     return out
 
 
-def perturb(spec, rng, n=8, prefer=("param_keys", "bindflag", "for_update_skip_locked", "prefix_dialect", "inlen")):
+def perturb(spec, rng, n=8, prefer=("bindcallable", "param_keys", "bindflag", "for_update_skip_locked", "prefix_dialect", "inlen")):
     """up to ``n`` (tag, spec') near-copies, each differing from ``spec`` in one attribute;
     rare tags listed in ``prefer`` are taken first when available"""
     cands = []
